@@ -1,0 +1,9 @@
+// Copyright 2019 The Go Authors. All rights reserved.
+// Use of this source code is governed by a BSD-style
+// license that can be found in the LICENSE file.
+
+//go:build !verif
+
+package sumdb
+
+func vhook(c *Client, point string, args ...interface{}) {}
